@@ -1,10 +1,11 @@
 (* Byte-level model of urwid/canvas.py TextCanvas (constructor and content()), line for line
    after the Python.  A row is a byte string in the screen encoding with a run-length attribute
    list and a run-length charset list, exactly the three lists a TextCanvas stores.  Width
-   arithmetic and trimming are NOT re-modelled here: calc_width, trim_text_attr_cs (calc_trim_text,
-   calc_text_pos, within_double_byte), rle_product, rle_len and rle_append_modify are the functions of
-   Model/Width.v, the C11 model whose integer code is translated from str_util.py / util.py by
-   py2v (imported read-only).
+   arithmetic and trimming are NOT re-modelled here: calc_width, calc_trim_text (calc_text_pos,
+   within_double_byte), rle_subseg, rle_get_at and rle_len are the TRANSLATED functions (py2v, from
+   str_util.py / util.py, re-generated on every run) that the C11 model Model/Width.v assembles
+   (calc_width_g, calc_trim_text_g, rle_*_gen); rle_product and rle_prepend / append_modify are C11's
+   hand-written ones.  All imported read-only.
 
    Model/Canvas.v abstracts a text leaf to rows of screen CELLS ([LText], [trim_cells],
    [text_content], [make_text]).  Proofs/CanvasBytesRefine.v proves that abstraction correct in the
@@ -15,7 +16,7 @@
 
    Attributes / charsets on the wire and in the output are integers, 0 is Python None. *)
 From Coq Require Import ZArith List Bool Lia.
-From Urwid Require Import PyBase PyList Width Canvas CanvasHeap.
+From Urwid Require Import PyBase PyList str_loops_gen Width Canvas CanvasHeap.
 Import ListNotations.
 Open Scope Z_scope.
 
@@ -48,6 +49,48 @@ Section Bytes.
 Variable wcw : Z -> Z.          (* wcwidth table (only used in the UTF-8 mode) *)
 Variable md : tmode.            (* the byte encoding mode set by util.set_encoding *)
 
+(* util.trim_text_attr_cs, assembled from the TRANSLATED functions of Gen/str_loops_gen.v (calc_trim_text with
+   calc_text_pos / within_double_byte, rle_subseg, rle_get_at: re-translated from the source on every run);
+   Proofs/CanvasBytesRefine.v shows it equal to Width.trim_text_attr_cs via C11's Proofs/GenEq.v:
+     spos, epos, pad_left, pad_right = calc_trim_text(text, 0, len(text), start_col, end_col)
+     attrtr = rle_subseg(attr, spos, epos); cstr = rle_subseg(cs, spos, epos)
+     if pad_left: al = rle_get_at(attr, spos - 1); rle_prepend_modify(attrtr, (al, 1)); rle_prepend_modify(cstr, (None, 1))
+     if pad_right: al = rle_get_at(attr, epos); rle_append_modify(attrtr, (al, 1)); rle_append_modify(cstr, (None, 1))
+     return (b"".rjust(pad_left) + text[spos:epos] + b"".rjust(pad_right), attrtr, cstr) *)
+Definition trim_text_attr_cs_g (text : list Z) (attr cs : rle) (start_col end_col : Z) : result (list Z * rle * rle) :=
+  match calc_trim_text_g wcw md text 0 (zlen text) start_col end_col with
+  | Err e => Err e
+  | Ok (spos, epos, pad_left, pad_right) =>
+      match rle_subseg_gen attr spos epos with
+      | Err e => Err e
+      | Ok attrtr =>
+          match rle_subseg_gen cs spos epos with
+          | Err e => Err e
+          | Ok cstr =>
+              match (if negb (pad_left =? 0) then
+                       match rle_get_at_gen attr (spos - 1) with
+                       | Err e => Err e
+                       | Ok al => Ok (rle_prepend_modify attrtr al 1, rle_prepend_modify cstr None 1)
+                       end
+                     else Ok (attrtr, cstr)) with
+              | Err e => Err e
+              | Ok (attrtr, cstr) =>
+                  match (if negb (pad_right =? 0) then
+                           match rle_get_at_gen attr epos with
+                           | Err e => Err e
+                           | Ok al => Ok (rle_append_modify attrtr al 1, rle_append_modify cstr None 1)
+                           end
+                         else Ok (attrtr, cstr)) with
+                  | Err e => Err e
+                  | Ok (attrtr, cstr) =>
+                      Ok (repeat 32 (Z.to_nat pad_left) ++ py_slice text spos epos ++ repeat 32 (Z.to_nat pad_right),
+                          attrtr, cstr)
+                  end
+              end
+          end
+      end
+  end.
+
 (* TextCanvas.__init__, body of "for i in range(len(text))" for one row:
      if w > maxcol: raise CanvasError
      if w < maxcol: text[i] += b"".rjust(maxcol - w)
@@ -60,16 +103,20 @@ Definition init_row (maxcol w : Z) (t : list Z) (oa oc : option rle) : result (l
   match oa with
   | None => Err IndexError
   | Some a =>
-      let ag := zlen t - rle_len a in
+      match rle_len_gen a with Err e => Err e | Ok la =>
+      let ag := zlen t - la in
       if ag <? 0 then Err CanvasError else
       let a := if negb (ag =? 0) then rle_append_modify a None ag else a in
       match oc with
       | None => Err IndexError
       | Some c =>
-          let cg := zlen t - rle_len c in
+          match rle_len_gen c with Err e => Err e | Ok lc =>
+          let cg := zlen t - lc in
           if cg <? 0 then Err CanvasError else
           let c := if negb (cg =? 0) then rle_append_modify c None cg else c in
           Ok (t, a, c)
+          end
+      end
       end
   end.
 
@@ -90,7 +137,7 @@ Fixpoint init_loop (maxcol : Z) (text : list (list Z)) (widths : list Z) (attr c
 
 (* TextCanvas(text, attr, cs, maxcol=maxcol)  (check_width=True; attr and cs given) *)
 Definition btext_init (text : list (list Z)) (attr cs : list rle) (maxcol : oz) : result btext :=
-  match mapM (fun t => calc_width wcw md t 0 (zlen t)) text with
+  match mapM (fun t => calc_width_g wcw md t 0 (zlen t)) text with
   | Err e => Err e
   | Ok widths =>
       let maxcol := match maxcol with Some m => m | None => fold_right Z.max 0 widths end in
@@ -114,7 +161,7 @@ Fixpoint bsegs (text : list Z) (i : Z) (acs : list ((oz * oz) * Z)) (m : amap) :
 Definition bcontent_row (maxcol tl cols : Z) (m : amap) (x : list Z * rle * rle) : result (list bseg) :=
   let '(text, a_row, cs_row) := x in
   match (if negb (tl =? 0) || (cols <? maxcol)
-         then trim_text_attr_cs wcw md text a_row cs_row tl (tl + cols)
+         then trim_text_attr_cs_g text a_row cs_row tl (tl + cols)
          else Ok (text, a_row, cs_row)) with
   | Err e => Err e
   | Ok (text, a_row, cs_row) =>
